@@ -160,6 +160,21 @@ def parse_sexprs(toks):
     return stack[0]
 
 
+_ESC = None
+
+
+def decode_string_escapes(v):
+    """Theory of strings, SMT-LIB 2.6: \\ud3d2d1d0, \\u{d0}..\\u{d4d3d2d1d0}
+    (the latter with first digit 0-2) denote the character with that code;
+    every other backslash is an ordinary character."""
+    import re
+    global _ESC
+    if _ESC is None:
+        _ESC = re.compile(r'\\u(?:([0-9a-fA-F]{4})|\{([0-9a-fA-F]{1,4}|'
+                          r'[0-2][0-9a-fA-F]{4})\})')
+    return _ESC.sub(lambda m: chr(int(m.group(1) or m.group(2), 16)), v)
+
+
 def is_sym(x, name=None):
     return isinstance(x, Tok) and x.kind == 'sym' and (
         name is None or (x.val == name and not x.extra))
@@ -186,7 +201,9 @@ class Logic(object):
 
 
 class Reader(object):
-    def __init__(self, strict_names=True, lenient_real_division=True):
+    def __init__(self, strict_names=True, lenient_real_division=True,
+                 decode_unicode=False):
+        self.decode_unicode = decode_unicode
         self.logic = Logic(None)
         self.logic_set = False
         self.sort_levels = [dict()]   # name -> arity | ('macro', params, body)
@@ -287,8 +304,10 @@ class Reader(object):
             self.nonstandard.append(('reserved-prefix', name))
 
     def fresh(self, name):
+        # (the separator is a control character: such a name cannot be
+        # written in SMT-LIB text, so it never clashes with a user symbol)
         self.counter += 1
-        return '%s!%d' % (name, self.counter)
+        return '%s\x1f%d' % (name, self.counter)
 
     # ---- terms -------------------------------------------------------------
     def term(self, x, env):
@@ -321,8 +340,15 @@ class Reader(object):
             if name in ('forall', 'exists'):
                 return self.quant(x, env)
             if name == '!':
-                if len(x) < 2:
-                    raise SmtError('syntax', 'empty annotation')
+                if len(x) < 3:
+                    raise SmtError('syntax', 'annotation without attribute')
+                prev_kw = False
+                for i, at in enumerate(x[2:]):
+                    kw = isinstance(at, Tok) and at.kind == 'kw'
+                    if not kw and not prev_kw:
+                        raise SmtError('syntax', 'attribute value without '
+                                       'keyword')
+                    prev_kw = kw
                 return self._term(x[1], env)
             if name == '_':
                 return self.indexed_const(x)
@@ -341,6 +367,8 @@ class Reader(object):
         if t.kind == 'bv':
             return B.BVc(t.val[0], t.val[1])
         if t.kind == 'str':
+            if self.decode_unicode:
+                return B.Str(decode_string_escapes(t.val))
             return B.Str(t.val)
         if t.kind != 'sym':
             raise SmtError('syntax', 'unexpected token %r' % (t,))
@@ -367,7 +395,7 @@ class Reader(object):
         return body
 
     def let(self, x, env):
-        if len(x) != 3 or not isinstance(x[1], list):
+        if len(x) != 3 or not isinstance(x[1], list) or not x[1]:
             raise SmtError('syntax', 'bad let')
         new = dict(env)
         seen = set()
@@ -672,7 +700,7 @@ class Reader(object):
                    'echo'):
             self.commands.append((k, None))
         elif k == 'declare-sort':
-            if len(c) not in (2, 3) or not is_sym(c[1]):
+            if len(c) != 3 or not is_sym(c[1]):
                 raise SmtError('syntax', 'declare-sort')
             ar = 0
             if len(c) == 3:
@@ -780,7 +808,10 @@ class Reader(object):
             if len(c) != 1:
                 raise SmtError('syntax', k)
             if k == 'reset':
-                self.__init__(self.strict_names)
+                cmds = self.commands
+                self.__init__(self.strict_names,
+                              decode_unicode=self.decode_unicode)
+                self.commands = cmds
             self.commands.append((k, None))
         elif k == 'check-sat-assuming':
             ts = [self.term(t, {}) for t in c[1]]
